@@ -2,7 +2,7 @@ use std::str::FromStr;
 
 use crate::errors::{Result, SvgdxError};
 use crate::position::BoundingBox;
-use crate::types::strp;
+use crate::types::number_list;
 
 impl BoundingBox {
     pub fn xfrm_scale(&self, sx: f32, sy: f32) -> Self {
@@ -46,15 +46,13 @@ impl FromStr for TransformType {
         let name = parts
             .next()
             .ok_or_else(|| SvgdxError::ParseError("No transform name".to_owned()))?;
-        let args = parts
-            .next()
-            .ok_or_else(|| SvgdxError::ParseError("No transform args".to_owned()))?
-            .strip_suffix(')')
-            .ok_or_else(|| SvgdxError::ParseError("No closing bracket".to_owned()))?
-            .split(&[',', ' ', '\t', '\n', '\r'])
-            .filter(|&v| !v.is_empty())
-            .map(strp)
-            .collect::<Result<Vec<_>>>()?;
+        let args = number_list(
+            parts
+                .next()
+                .ok_or_else(|| SvgdxError::ParseError("No transform args".to_owned()))?
+                .strip_suffix(')')
+                .ok_or_else(|| SvgdxError::ParseError("No closing bracket".to_owned()))?,
+        )?;
         // See https://www.w3.org/TR/SVG11/coords.html#TransformAttribute
         Ok(match name.to_lowercase().as_str() {
             "translate" => {
